@@ -75,6 +75,10 @@ claimed = {
    text="Decides from source for package agwpe: every constructor parameter reaches the returned frame, constructors set the kind of the AGWPE table, call sites pass the owning port; packed header layout (36 bytes, field offsets), little-endian, kind letters, PID 0xF0, DataLen = len(data); no single raw Read for a fixed-length field; no frame is handed over with a non-blocking send (the one in demux.Enqueue is a recorded known finding; any other site is reported); Conn.Read returns the copy count, keeps and first serves the remainder; Conn.Write sends one data frame with the connection's port/callsigns/bytes and reports len(p); every answer subscription precedes its request, waits for exactly the table's answer kinds and every wait follows the write; connection/port demux filters and the filter predicate; crash-site inventory from all entry points of the driver (two panics excepted with reasons tied to other rules). Does not decide end-to-end stream equality under all segmentations/schedules nor liveness of the demux.",
    technique="constructor parameter-flow and table checks, struct layout from types, select/send classification on SSA, request/response ordering by dominance, crash-site inventory with compiler BCE proofs and difference-bound facts",
    ref="DESIGN.md section 4, C13"),
+ "C14": dict(
+   text="Decides from source for package ardop: crash-site inventory from all goroutines and methods of the driver (compiler proofs + fact engine; 11 sites excepted with reasons, listed as assumed); every unchecked type assertion on a control message's value - direct, through Bool/State/String/Int, or through the get* wrappers - runs only under commands whose parser arm assigns exactly that dynamic type on every path; no arithmetic on a 16-bit wire length before widening; CRC bytes and frame bodies read with io.ReadFull, error tested, mismatch refuses the frame; all byte order objects BigEndian, 16-bit length on both sides, data truncated to 65535 (proved) with the count reported, C:/D: prefixes and CRC coverage on the serial edge, CRCFAULT leads back to the send; flush lock released only by updateBuffer on BUFFER 0, taken by Write on the BUFFER arm, Flush returns nil only from the wait; SetPTT is a plain call on the PTT arm of the dispatch goroutine; Close exits only after sending DISCONNECT; Read returns the copy count, keeps and first serves the remainder; ARQ payloads are queued with a blocking send. Does not decide stream equality, retransmission timing, event interleavings, or the unsynchronised TNC state fields.",
+   technique="crash-site inventory (compiler BCE + difference-bound facts), producer/consumer agreement on dynamic types across parser arms and guarded assertions, width/endianness/typestate rules on SSA, dominance of effects",
+   ref="DESIGN.md section 4, C14"),
 }
 
 not_applicable = {
